@@ -9,7 +9,7 @@ from vlib.runner import run_hypothesis, Violation, jhash
 PROP = "C11"
 LEVEL = "exploration"
 RULE = ("Generated operation sequences (create/modify/same-size rewrite/chmod/delete/rename/mkdir/symlink/"
-        "retarget/type replacement/fifo/hard link/touch/SCM-dir churn) on a real directory; every mutation gets a "
+        "same-size rewrite with restored mtime (cp -p)/retarget/type replacement/fifo/hard link/touch/SCM-dir churn) on a real directory; every mutation gets a "
         "strictly increasing mtime (logical clock). After every operation hashDirectory(tree, index) must equal "
         "hashDirectory(tree) and, over all states of the run plus a re-created copy (other creation order, other "
         "timestamps), canonical form (names, types, permission bits, contents, link targets) <-> hash must be a "
@@ -106,6 +106,26 @@ def apply(t, op):
         with open(t.p(r), "r+b") as f:
             f.write(new)
         t.tick(t.p(r)); return r
+    if kind == "rewrite_keep_mtime":
+        # cp -p / rsync -t / tar: new content, same size, old mtime restored - only ctime tells
+        r = pick(files, op[1])
+        if r is None: return None
+        st0 = os.lstat(t.p(r))
+        if st0.st_size == 0: return None
+        with open(t.p(r), "rb") as f:
+            old = f.read()
+        new = content(op[2], st0.st_size)
+        if new == old: new = bytes([old[0] ^ 1]) + old[1:]
+        with open(t.p(r), "r+b") as f:
+            f.write(new)
+        os.utime(t.p(r), ns=(st0.st_atime_ns, st0.st_mtime_ns))
+        import time
+        for _ in range(200):            # the premise: the modification changed the stat data
+            if os.lstat(t.p(r)).st_ctime_ns != st0.st_ctime_ns: break
+            time.sleep(0.002); os.utime(t.p(r), ns=(st0.st_atime_ns, st0.st_mtime_ns))
+        else:
+            t.tick(t.p(r))
+        return r
     if kind == "chmod":
         r = pick([x for x in nodes if x not in links], op[1])
         if r is None: return None
@@ -269,6 +289,7 @@ op_st = st.one_of(
     st.tuples(st.just("mkfile"), I, I, I, I, I),
     st.tuples(st.just("modify"), I, I, I),
     st.tuples(st.just("rewrite"), I, I),
+    st.tuples(st.just("rewrite_keep_mtime"), I, I),
     st.tuples(st.just("chmod"), I, I),
     st.tuples(st.just("delete"), I),
     st.tuples(st.just("rename"), I, I, I),
@@ -287,7 +308,7 @@ case_st = st.builds(lambda pre, ops: {"ops": pre + ops},
                     st.lists(mk_st, min_size=0, max_size=6), st.lists(op_st, min_size=1, max_size=36))
 
 def shard(ctx):
-    run_hypothesis(ctx, case_st, lambda c: run_case(ctx, c), ctx.n(4000, 60000))
+    run_hypothesis(ctx, case_st, lambda c: run_case(ctx, c), ctx.n(16000, 160000))
 
 def replay(ctx, case):
     run_case(ctx, case)
